@@ -123,11 +123,20 @@ Leaves(L) == {G("Point", PtK(1))}
              \cup {G("LineString", PathK(0, n)) : n \in 0..2} \cup {G("MultiPoint", PathK(3, n)) : n \in 0..2}
              \cup {G(t, PathsK(1, v)) : t \in {"Polygon", "MultiLineString"}, v \in Vecs(L, {0, 1, 2})}
              \cup {G("MultiPolygon", [p \in DOMAIN vv |-> PathsK(2 * p, vv[p])]) : vv \in Vecs(2, Vecs(2, {0, 1}))}
+(* consecutive equal vertices (a doubled vertex, a line standing still, +0 followed by -0: equal as numbers, not as bits) are
+   part of the geometry *)
+Zp == <<Pool[4], Pool[4]>>
+Zm == <<Pool[5], Pool[4]>>
+DupLeaves == {G("LineString", <<PtK(2), PtK(2)>>), G("LineString", <<PtK(1), PtK(2), PtK(2)>>), G("LineString", <<PtK(2), PtK(2), PtK(3)>>),
+              G("LineString", <<Zp, Zm>>), G("LineString", <<Zm, Zp, PtK(1)>>), G("MultiPoint", <<PtK(2), PtK(2)>>), G("MultiPoint", <<Zp, Zm>>),
+              G("MultiLineString", << <<PtK(1), PtK(1)>>, <<Zm, Zp>> >>), G("Polygon", << <<PtK(1), PtK(1), PtK(2), PtK(2)>>, <<Zp, Zm, Zp>> >>),
+              G("MultiPolygon", << << <<PtK(3), PtK(3)>> >>, << <<Zp, Zm>>, <<PtK(2), PtK(2), PtK(2)>> >> >>),
+              G("GeometryCollection", << G("LineString", <<Zp, Zm>>), G("LineString", <<PtK(2), PtK(2)>>) >>)}
 Catalog == << G("Point", PtK(5)), G("LineString", <<>>), G("Polygon", PathsK(2, <<0, 2>>)), G("MultiPoint", PathK(1, 1)),
               G("MultiPolygon", << PathsK(4, <<1>>) >>), G("GeometryCollection", <<>>),
               G("GeometryCollection", << G("Point", PtK(7)), G("GeometryCollection", << G("LineString", PathK(6, 1)) >>) >>) >>
 Collections(LG) == {G("GeometryCollection", [i \in DOMAIN s |-> Catalog[s[i]]]) : s \in Vecs(LG, DOMAIN Catalog)}
-Geoms(L, LG) == Leaves(L) \cup Collections(LG)
+Geoms(L, LG) == Leaves(L) \cup DupLeaves \cup Collections(LG)
 
 (* deep elements: a leaf wrapped in d one-member collections ("collections nested to any depth") *)
 RECURSIVE DeepG(_, _)
